@@ -30,6 +30,7 @@ def cases(draw):
     big = draw(st.integers(0, 5)) == 0      # now and then more instances per class and higher cardinalities
     g = draw(gg.general(max_nodes=12 if big else 7, max_stmts=48 if big else 30, inst_props=(RDF_TYPE, RDF_TYPE, RDF_TYPE, "http://ex.org/isA")))
     cfg = draw(gg.switches())
+    cfg.update(draw(gg.harmless_extras()))
     cfg["instances_report_mode"] = "mixed"
     if draw(st.booleans()):
         cfg["remove_empty_shapes"] = False
